@@ -677,7 +677,7 @@ def check_C03(ctx):
     else:
         sysm = lin_enumerate(5, 3, {"move", "use"})
         extra = lin_enumerate(6, 2, {"move"})
-        nextra, nrand, batch = 60000, 120000, 20000
+        nextra, nrand, batch = 40000, 90000, 20000
     nsys_exh = len(sysm)
     seen = set(json.dumps(b, sort_keys=True) for b in sysm)
     extra = [b for b in extra if json.dumps(b, sort_keys=True) not in seen]
